@@ -101,6 +101,10 @@ def _core_programs():
         _P([dict(c, act=False), dict(c)], 'gaplin'),
         _P([dict(c), dict(c, bias=False)], 'gaplin'),
         _P([dict(c, s=2, p=0, bn=True), {'op': 'conv', 'dw': True, 's': 2}], 'linlin'),
+        # the activation separated from its layer by a pass-through op: conv [-> BN] -> pool -> ReLU
+        _P([dict(c, act=False), {'op': 'pool'}, {'op': 'relu'}, dict(c)], 'flatlin'),
+        _P([dict(c, act=False, bn=True), {'op': 'pool'}, {'op': 'relu'}], 'linlin'),
+        _P([dict(c, act=False, bn=True), {'op': 'pool', 'kind': 'avg'}, {'op': 'relu'}, {'op': 'conv', 'dw': True}], 'gaplin'),
     ]
 
 
@@ -124,7 +128,7 @@ def _hand_programs():
 
 
 def _sequential(p):
-    return all(s['op'] in ('conv', 'pool') for s in p['stages'])
+    return all(s['op'] in ('conv', 'pool', 'relu') for s in p['stages'])
 
 
 def _bn_on_single_pixel(p):
@@ -773,6 +777,44 @@ def run_config(exp, x, opt, res, add, stats):
                 # verified cause: the observed shape is exactly the one obtained by padding all four sides with padding[0]
                 fs = 'asymmetric-padding'
             add(r['kind'], f'{r["kind"]}/{backend}/{fs}', f'{n} ({_feat_sig(feat)}): {r["msg"]}')
+    # --- between the layers: what an integer layer receives must be the integer image of what its fake-quantized counterpart receives when
+    # the PRODUCER's integer output is taken as given (pooling / flatten / activations in between must commute with the integer encoding;
+    # an op that survives in the integer network but acts on offset-signed integers - e.g. a ReLU - breaks exactly this)
+    if own_trace:
+        maup = backend == 'maupiti'
+        for prev, cur in zip(names, names[1:]):
+            if prev not in outputs or cur not in inputs or feats[prev]['final']:
+                continue
+            Fp, Fc = fqm[prev], fqm[cur]
+            p_out = feats[prev]['p_out']
+            if p_out is None:
+                continue
+            real_out = ((outputs[prev].double() + (2 ** (p_out - 1) if maup else 0)) * _real_step(Fp.out_quantizer)).float()
+            cap = {}
+            h1 = Fp.register_forward_hook(lambda mod, i, o: real_out)
+            h2 = Fc.register_forward_pre_hook(lambda mod, i: cap.__setitem__('x', i[0].detach().clone()))
+            try:
+                with torch.no_grad():
+                    fq(x)
+            except Exception:
+                cap.pop('x', None)
+            h1.remove()
+            h2.remove()
+            if 'x' not in cap:
+                continue
+            step_in = _real_step(Fc.in_quantizer)
+            got = (inputs[cur].double() + (2 ** (feats[cur]['p_in'] - 1) if maup else 0)) * step_in
+            res['evals'] += 1
+            if tuple(got.shape) != tuple(cap['x'].shape):
+                add('inter-layer-image-differs', f'inter-layer-image-differs/{backend}/shape',
+                    f'{prev} -> {cur}: the integer layer receives shape {tuple(got.shape)}, its counterpart {tuple(cap["x"].shape)}')
+                continue
+            dev = float(((got - cap['x'].double()).abs() / step_in).max())
+            if dev > 0.51:
+                add('inter-layer-image-differs', f'inter-layer-image-differs/{backend}',
+                    f'{prev} -> {cur}: the input of the integer layer is not the integer image of what the fake-quantized layer receives from the same '
+                    f'producer output (max deviation {dev:.3g} levels of {feats[cur]["p_in"]} bits): an op between the two layers does not commute with '
+                    f'the integer encoding')
     res['outcomes'].add('own-trace' if own_trace else 'layerwise-fallback')
     return nspan, ncmp
 
